@@ -106,8 +106,17 @@ SeqOfSet(S) == CHOOSE s \in [1 .. Cardinality(S) -> S] : \A x \in S : \E k \in D
 LockT(lt) == CASE lt \in {"R", "RW"} -> "S" [] lt \in {"W", "WW"} -> "X" [] OTHER -> "bad"
 
 \* offsetLengthToStartEnd: rk = range kind chosen by the client.
-RangeOK(rk, s, e) == rk \in {"range", "exact"} /\ s < e /\ s >= 0 /\ e <= N
+\* Position N stands for offset 2^64-1: as the (exclusive) end of a range it
+\* means "through end of file".  The byte at offset 2^64-1 itself is not one
+\* of Bytes: a table of half-open ranges cannot express it.  A request for
+\* exactly that byte (rk = "last": offset 2^64-1, length all ones) is refused
+\* (NFS4ERR_BAD_RANGE); rk = "last1" (offset 2^64-1, length 1) overflows
+\* (NFS4ERR_INVAL).  rk = "lastok" is how the trace specification follows a
+\* server that accepted such a request (no byte of Bytes changes); whether
+\* that was allowed is judged there, with the byte at 2^64-1 as ghost state.
+RangeOK(rk, s, e) == (rk \in {"range", "exact"} /\ s < e /\ s >= 0 /\ e <= N) \/ rk = "lastok"
 RangeEnd(rk, e) == IF rk = "exact" THEN N ELSE e
+RangeErr(rk) == IF rk = "last" THEN "BAD_RANGE" ELSE "INVAL"
 
 ConflictsIn(H, f, i, lo, s, e, t) ==
   {h \in H : /\ h.f = f /\ s <= h.b /\ h.b < e
@@ -624,7 +633,8 @@ Lock(x, lt, rk, s, e, newo, osid, lo, lsid, otherNew) ==
       e2 == RangeEnd(rk, e)
       confl == ConflictsIn(held, o.f, o.i, lown, s, e2, t)
       st == IF st1 # "OK" THEN st1
-            ELSE IF ~RangeOK(rk, s, e) \/ t = "bad" THEN "INVAL"
+            ELSE IF ~RangeOK(rk, s, e) THEN RangeErr(rk)
+            ELSE IF t = "bad" THEN "INVAL"
             ELSE IF confl # {} THEN "DENIED" ELSE "OK"
       l1 == IF ex = {} THEN [i |-> o.i, oo |-> o.oo, f |-> o.f, lo |-> lown, sh |-> o.sh, q |-> 1, o |-> otherNew]
             ELSE [(CHOOSE l \in ex : TRUE) EXCEPT !.q = @ + 1]
@@ -649,7 +659,8 @@ LockTest(x, lt, rk, s, e, lo) ==
       e2 == RangeEnd(rk, e)
       confl == IF c.fh \in Files THEN ConflictsIn(held, c.fh, c.i, lo, s, e2, t) ELSE {}
       st == IF c.fh = NoFH THEN "NOFILEHANDLE" ELSE IF c.fh = Root THEN "ISDIR"
-            ELSE IF ~RangeOK(rk, s, e) \/ t = "bad" THEN "INVAL"
+            ELSE IF ~RangeOK(rk, s, e) THEN RangeErr(rk)
+            ELSE IF t = "bad" THEN "INVAL"
             ELSE IF confl # {} THEN "DENIED" ELSE "OK"
   IN /\ Running(x) /\ OpFrame /\ NoState
      /\ Keep(x, "LOCKT", st)
@@ -659,7 +670,7 @@ LockU(x, sid, rk, s, e) ==
   LET c == cx[x]
       rl == ResolveLock(x, sid)
       l == rl.r
-      st == IF rl.st # "OK" THEN rl.st ELSE IF ~RangeOK(rk, s, e) THEN "INVAL" ELSE "OK"
+      st == IF rl.st # "OK" THEN rl.st ELSE IF ~RangeOK(rk, s, e) THEN RangeErr(rk) ELSE "OK"
       l1 == [l EXCEPT !.q = @ + 1]
   IN /\ Running(x) /\ OpFrame
      /\ UNCHANGED <<oofs, ios, leaf, pend, dir, fst, nfiles, nextId>>
